@@ -3,7 +3,7 @@
 # worktree /tmp/wt/<Cnn>: patch applies to HEAD, library builds, all existing tests pass (22 with Utils enabled,
 # which include the 19 baseline tests), the demonstration FAILS with the change and PASSES without it.
 # On success copies patch.diff, demo.c and a meta.json into /verif/seeded/<Cnn>-<x>/.
-ID=$1; X=$2; S=/tmp/seed/$ID/$X; WT=/tmp/wt/$ID
+ID=$1; X=$2; SR=${SEEDROOT:-/tmp/seed}; S=$SR/$ID/$X; WT=${WTROOT:-/tmp/wt}/$ID; OUTNAME=${OUTNAME:-$ID-$X}
 [ -f $S/patch.diff ] || { echo "$ID-$X: no patch"; exit 2; }
 cd $WT && git checkout -q -- . && git apply --check $S/patch.diff || { echo "$ID-$X: patch does not apply"; exit 1; }
 git apply $S/patch.diff
@@ -12,23 +12,23 @@ cmake --build $WT/_build >/dev/null 2>&1 || { echo "$ID-$X: build fails with cha
 T=$(ctest --test-dir $WT/_build -j8 2>&1 | grep "tests passed")
 case "$T" in "100% tests passed, 0 tests failed out of 22") ;; *) echo "$ID-$X: tests: $T"; git checkout -q -- .; exit 1;; esac
 SAN=""; grep -q "fsanitize=thread" $S/notes.json && SAN="-fsanitize=thread -g"; grep -q "fsanitize=address" $S/notes.json && SAN="-fsanitize=address,undefined -g"
-cc $SAN -I$WT $S/demo.c $WT/cJSON.c $WT/cJSON_Utils.c -lm -lpthread -o /tmp/seed/$ID/$X/demo.bin 2>/dev/null || { echo "$ID-$X: demo does not compile"; git checkout -q -- .; exit 1; }
-timeout 120 /tmp/seed/$ID/$X/demo.bin >/tmp/seed/$ID/$X/with.out 2>&1; RCW=$?
+cc $SAN -I$WT $S/demo.c $WT/cJSON.c $WT/cJSON_Utils.c -lm -lpthread -o $S/demo.bin 2>/dev/null || { echo "$ID-$X: demo does not compile"; git checkout -q -- .; exit 1; }
+timeout 120 $S/demo.bin >$S/with.out 2>&1; RCW=$?
 git checkout -q -- .
-cc $SAN -I$WT $S/demo.c $WT/cJSON.c $WT/cJSON_Utils.c -lm -lpthread -o /tmp/seed/$ID/$X/demo.bin 2>/dev/null
-timeout 120 /tmp/seed/$ID/$X/demo.bin >/tmp/seed/$ID/$X/without.out 2>&1; RCO=$?
-rm -f /tmp/seed/$ID/$X/demo.bin
+cc $SAN -I$WT $S/demo.c $WT/cJSON.c $WT/cJSON_Utils.c -lm -lpthread -o $S/demo.bin 2>/dev/null
+timeout 120 $S/demo.bin >$S/without.out 2>&1; RCO=$?
+rm -f $S/demo.bin
 if [ $RCW -ne 0 ] && [ $RCO -eq 0 ]; then
-  D=/verif/seeded/$ID-$X; mkdir -p $D; cp $S/patch.diff $S/demo.c $D/
-  python3 - $ID $X "$SAN" $RCW <<'PY'
+  D=/verif/seeded/$OUTNAME; mkdir -p $D; cp $S/patch.diff $S/demo.c $D/
+  python3 - $ID $X "$SAN" $RCW $S $D <<'PY'
 import json,sys
-ID,X,SAN,RCW=sys.argv[1:5]
-n=json.load(open('/tmp/seed/%s/%s/notes.json'%(ID,X)))
+ID,X,SAN,RCW,S,D=sys.argv[1:7]
+n=json.load(open(S+'/notes.json'))
 meta={'property':ID,'summary':n.get('summary'),'needs':n.get('needs'),'origin':'fresh sub-agent given only the property text and a scratch worktree',
  'confirmed':{'patch_applies_to':'repository HEAD (with the fix: commits)','tests_with_change':'22/22 pass (19 baseline + 3 Utils tests, ENABLE_CJSON_UTILS=ON)',
    'demo_build':'cc %s -I<repo> demo.c <repo>/cJSON.c <repo>/cJSON_Utils.c -lm -lpthread'%SAN,'demo_with_change':'exit %s (FAIL)'%RCW,'demo_without_change':'exit 0 (PASS)'},
  'caught_by':None}
-json.dump(meta,open('/verif/seeded/%s-%s/meta.json'%(ID,X),'w'),indent=1)
+json.dump(meta,open(D+'/meta.json','w'),indent=1)
 PY
   echo "$ID-$X: CONFIRMED (with=$RCW without=$RCO)"
 else
